@@ -218,6 +218,8 @@ def run(ctx: Context, rep) -> None:
     # first refill (same rule as C02.borrow)
     from sa.rules.c02 import check_borrow, stream_scope
     check_borrow(ctx, rep, "C19.borrow", stream_scope(ctx)[1])
+    from sa.rules import shared as _shared
+    _shared.check_fresh_pass(ctx, rep, "C19.fresh-pass")
 
 
 
